@@ -10,6 +10,7 @@
 -/
 import Lcapy.Proofs.MNA
 import Mathlib.Tactic.NormNum
+import Mathlib.Tactic.Linarith
 namespace Lcapy.C01
 open Lcapy.MNA Ix
 variable {K : Type} [Field K]
@@ -87,14 +88,48 @@ theorem mna_iff_laws_ac (j ω : K) (_hj : j * j = -1) (cs : List (Cpt K)) (x : I
 def SolvesHom (kind : Kind) (s : K) (cs : List (Cpt K)) (z : Ix → K) : Prop :=
   ∀ r, r ≠ node 0 → lhsSum r (ground z) (stampAll kind s cs).lhs = 0
 
-/-- the MNA matrix is non-singular: the homogeneous system has only the trivial solution -/
-def Nonsingular (kind : Kind) (s : K) (cs : List (Cpt K)) : Prop :=
-  ∀ z, SolvesHom kind s cs z → ∀ i, i ≠ node 0 → z i = 0
+/-- the indices that occur in an assembled system: rows and columns of A, rows of Z -/
+def unknowns (st : Stamp K) : List Ix :=
+  st.lhs.flatMap (fun e => [e.1, e.2.1]) ++ st.rhs.map (fun e => e.1)
 
-/-- **mna_unique**: when the matrix is non-singular the reported solution is THE solution. -/
-theorem mna_unique (kind : Kind) (s : K) (cs : List (Cpt K)) (x y : Ix → K)
-    (hns : Nonsingular kind s cs) (hx : Solves kind s cs x) (hy : Solves kind s cs y) :
-    ∀ i, i ≠ node 0 → x i = y i := by
+/-- `i` is an unknown of the netlist: a non-ground node voltage or a branch current that occurs in the
+    assembled system.  (An index of `Ix` that does not occur has an empty row and an empty column: the
+    system says nothing about it, and Lcapy reports nothing for it.) -/
+def Unknown (kind : Kind) (s : K) (cs : List (Cpt K)) (i : Ix) : Prop :=
+  i ≠ node 0 ∧ i ∈ unknowns (stampAll kind s cs)
+
+theorem mem_unknowns_append (a b : Stamp K) (i : Ix) :
+    i ∈ unknowns (a.append b) ↔ i ∈ unknowns a ∨ i ∈ unknowns b := by
+  simp only [unknowns, Stamp.append, List.flatMap_append, List.map_append, List.mem_append]
+  tauto
+
+/-- every index that a component's own stamp mentions is an unknown of the netlist -/
+theorem mem_unknowns_stampAll (kind : Kind) (s : K) (cs : List (Cpt K)) (c : Cpt K) (hc : c ∈ cs) (i : Ix)
+    (hi : i ∈ unknowns (stamp kind s c)) : i ∈ unknowns (stampAll kind s cs) := by
+  induction cs with
+  | nil => simp at hc
+  | cons h t ih =>
+    simp only [stampAll, List.foldr_cons] at ih ⊢
+    rw [mem_unknowns_append]
+    rcases List.mem_cons.mp hc with rfl | hct
+    · exact Or.inl hi
+    · exact Or.inr (ih hct)
+
+/-- the homogeneous system forces the unknowns in `U` to vanish -/
+def NonsingularOn (U : Ix → Prop) (kind : Kind) (s : K) (cs : List (Cpt K)) : Prop :=
+  ∀ z, SolvesHom kind s cs z → ∀ i, U i → z i = 0
+
+/-- the MNA matrix is non-singular: the homogeneous system has only the trivial solution ON THE UNKNOWNS OF
+    THE NETLIST.  (Round-3 correction: the earlier definition quantified over every index of `Ix`, also
+    those that do not occur in the netlist and are unconstrained, so no finite netlist satisfied it and
+    the uniqueness theorems held vacuously; see `ex_nonsingular` for a netlist that satisfies this one.) -/
+def Nonsingular (kind : Kind) (s : K) (cs : List (Cpt K)) : Prop :=
+  NonsingularOn (Unknown kind s cs) kind s cs
+
+/-- uniqueness on any set of unknowns on which the homogeneous system is trivial -/
+theorem mna_unique_on (U : Ix → Prop) (kind : Kind) (s : K) (cs : List (Cpt K)) (x y : Ix → K)
+    (hns : NonsingularOn U kind s cs) (hx : Solves kind s cs x) (hy : Solves kind s cs y) :
+    ∀ i, U i → x i = y i := by
   intro i hi
   have hz : SolvesHom kind s cs (fun i => x i - y i) := by
     intro r hr
@@ -112,20 +147,91 @@ theorem mna_unique (kind : Kind) (s : K) (cs : List (Cpt K)) (x y : Ix → K)
   have := hns _ hz i hi
   exact sub_eq_zero.mp this
 
+/-- **mna_unique**: when the matrix is non-singular the reported solution is THE solution: every node
+    voltage and branch current of the netlist is determined. -/
+theorem mna_unique (kind : Kind) (s : K) (cs : List (Cpt K)) (x y : Ix → K)
+    (hns : Nonsingular kind s cs) (hx : Solves kind s cs x) (hy : Solves kind s cs y) :
+    ∀ i, Unknown kind s cs i → x i = y i :=
+  mna_unique_on _ kind s cs x y hns hx hy
+
 /-- **solver_independent**: any two procedures that return a solution of the assembled system
     (DM, LU, GE, ADJ, … are all such procedures when they succeed) return the same node voltages
     and branch currents on every non-singular circuit. -/
 theorem solver_independent (kind : Kind) (s : K) (cs : List (Cpt K))
     (solver₁ solver₂ : List (Cpt K) → Ix → K)
     (h₁ : Solves kind s cs (solver₁ cs)) (h₂ : Solves kind s cs (solver₂ cs))
-    (hns : Nonsingular kind s cs) : ∀ i, i ≠ node 0 → solver₁ cs i = solver₂ cs i :=
+    (hns : Nonsingular kind s cs) : ∀ i, Unknown kind s cs i → solver₁ cs i = solver₂ cs i :=
   mna_unique kind s cs _ _ hns h₁ h₂
 
 /-- consequently the unique solution of the MNA system is the unique assignment obeying the laws -/
 theorem laws_unique (kind : Kind) (s : K) (cs : List (Cpt K)) (x y : Ix → K) (hwf : WF cs)
     (hns : Nonsingular kind s cs) (hx : Laws kind s cs x) (hy : Laws kind s cs y) :
-    ∀ i, i ≠ node 0 → x i = y i :=
+    ∀ i, Unknown kind s cs i → x i = y i :=
   mna_unique kind s cs x y hns ((mna_iff_laws kind s cs x hwf).mpr hx) ((mna_iff_laws kind s cs y hwf).mpr hy)
+
+/-- `laws_unique` on any set of unknowns -/
+theorem laws_unique_on (U : Ix → Prop) (kind : Kind) (s : K) (cs : List (Cpt K)) (x y : Ix → K) (hwf : WF cs)
+    (hns : NonsingularOn U kind s cs) (hx : Laws kind s cs x) (hy : Laws kind s cs y) :
+    ∀ i, U i → x i = y i :=
+  mna_unique_on U kind s cs x y hns ((mna_iff_laws kind s cs x hwf).mpr hx) ((mna_iff_laws kind s cs y hwf).mpr hy)
+
+/-- non-vacuity of `Nonsingular` (and so of mna_unique / solver_independent / laws_unique):
+    `V1 1 0 6; R1 1 2 2; R2 2 0 3` at dc — the homogeneous system forces V(1), V(2) and the source
+    current to vanish, and these are exactly the unknowns of the netlist. -/
+theorem ex_nonsingular :
+    Nonsingular .dc (0 : ℚ) [.V 1 0 0 6, .R 1 2 2, .R 2 0 3] := by
+  intro z hz i hi
+  have h1 := hz (node 1) (by simp)
+  have h2 := hz (node 2) (by simp)
+  have h3 := hz (br 0) (by simp)
+  simp [stampAll, stamp, Stamp.append, branchPattern, admPattern, lhsSum, ground] at h1 h2 h3
+  obtain ⟨hi0, hi⟩ := hi
+  simp [unknowns, stampAll, stamp, Stamp.append, branchPattern, admPattern] at hi
+  have e1 : z (node 1) = 0 := h3
+  have e2 : z (node 2) = 0 := by rw [e1] at h2; linarith
+  have e3 : z (br 0) = 0 := by rw [e1, e2] at h1; linarith
+  rcases hi with h | h | h | h | h | h | h | h | h | h | h | h | h | h <;> subst h <;>
+    first | assumption | exact absurd rfl hi0
+
+/-! ### Rows stamped more than once -/
+
+/-- **dup_row_same_solutions**: every CCVS that names the same admittance-type controlling component stamps that
+    component's control row again (`+=`), so the assembled row `mc` is a multiple `(1 + c)` of itself.  Whenever
+    `1 + c ≠ 0` (always, over ℚ or ℂ, for c further copies) the solutions are those of the system with the row
+    stamped once -- the system `mna_iff_laws` speaks about. -/
+theorem dup_row_same_solutions (st d : Stamp K) (mc : Nat) (c : K) (hc : 1 + c ≠ 0) (x : Ix → K)
+    (hd : ∀ r, residual d x r = if r = br mc then c * residual st x (br mc) else 0) :
+    (∀ r, r ≠ node 0 → residual (st.append d) x r = 0) ↔ (∀ r, r ≠ node 0 → residual st x r = 0) := by
+  have key : ∀ r, residual (st.append d) x r = 0 ↔ residual st x r = 0 := by
+    intro r
+    rw [residual_append, hd r]
+    by_cases hr : r = br mc
+    · subst hr
+      simp only [if_true]
+      constructor
+      · intro h
+        have : (1 + c) * residual st x (br mc) = 0 := by rw [← h]; ring
+        rcases mul_eq_zero.mp this with h1 | h1
+        · exact absurd h1 hc
+        · exact h1
+      · intro h; rw [h]; ring
+    · simp [hr]
+  constructor
+  · intro h r hr; exact (key r).mp (h r hr)
+  · intro h r hr; exact (key r).mpr (h r hr)
+
+/-- non-vacuity: a CCVS controlled by a resistor, and the control row stamped a second time -/
+example (x : Ix → ℚ) (r : Ix) :
+    residual (ctrlRow 3 4 1 (1/2 : ℚ) 0) x r =
+      if r = br 1 then 1 * residual (stamp .dc 0 (.HY 1 2 0 3 4 1 (1/2 : ℚ) 0 5)) x (br 1) else 0 := by
+  by_cases hr : r = br 1
+  · subst hr; simp [ctrlRow, stamp, branchPattern, residual, lhsSum, rhsSum, lhsSum_append]
+  · simp only [hr, if_false]
+    cases r with
+    | node k => simp [ctrlRow, residual, lhsSum, rhsSum]
+    | br m =>
+      have : m ≠ 1 := fun h => hr (by rw [h])
+      simp [ctrlRow, residual, lhsSum, rhsSum, Ne.symm this]
 
 /-! ### Opamp form (`Ename Np Nm opamp Ncp Ncm Ad Ac Ro`, expanded by `Eopamp._expand`) -/
 
